@@ -13,11 +13,20 @@
    All theorems hold for EVERY zlib machine (zst, zinit, zstep, zeof, zfl). *)
 From Coq Require Import List NArith ZArith Bool String.
 From Wpull Require Import Lib.Conn Model.PyText Model.Decomp Model.Chunked Model.HttpMsg Spec.HttpFraming
-  Proofs.HttpProofs Proofs.HttpRefProofs Proofs.HttpTruncProofs Proofs.HttpExamples.
+  Proofs.HttpProofs Proofs.HttpRefProofs Proofs.HttpTruncProofs Proofs.HttpExamples Proofs.ConstsAgree Gen.Consts.
 Import ListNotations.
 Open Scope string_scope.
 Open Scope list_scope.
 Open Scope N_scope.
+
+(* The status codes that never carry a body are the ones the source defines: Gen/Consts.v is regenerated from
+   DEFAULT_NO_CONTENT_CODES of wpull/protocol/http/stream.py on every run; for EVERY status code the model's
+   test is membership in that set (so adding, say, 205 to the set breaks this theorem, and the reference
+   wf_response - which allows a 205 to carry a body - stops describing the reader). *)
+Theorem C08_no_content_codes_are_the_sources :
+  forall c, no_content_code c = UrlLib.memb c gen_no_content_codes.
+Proof. exact http_no_content_codes_agree. Qed.
+Print Assumptions C08_no_content_codes_are_the_sources.
 
 (* (1) For EVERY byte stream (well-formed or not) and every two segmentations
    (down to single bytes): what the caller sees of one exchange - error kind, or
